@@ -161,3 +161,80 @@ func VerifC02LegacyCPU() {
 	vAssert(p.WriteUncompressed(&buf) == nil, "C02.cpu.write: an accepted profile cannot be written")
 	vObserve(len(p.Sample))
 }
+
+func init() { vRegister("VerifC02DanglingIDs", VerifC02DanglingIDs) }
+
+// VerifC02DanglingIDs: a structurally complete encoding (mapping, function,
+// two locations with lines, a sample) whose cross-references - mapping id,
+// function ids, location ids, in any order of first use - are arbitrary small
+// numbers: the parser either rejects it or returns a profile in which every
+// reference resolves (checked here directly, not through CheckValid).
+func VerifC02DanglingIDs() {
+	var b buffer
+	encodeString(&b, 6, "")
+	encodeString(&b, 6, "a")
+	encodeMessage(&b, 1, &ValueType{typeX: 1, unitX: 1})
+	id := func(tag string) uint64 {
+		v := vByte(tag)
+		vAssume(v <= 3)
+		return uint64(v)
+	}
+	encodeMessage(&b, 3, &Mapping{ID: 1, Start: 0x1000, Limit: 0x2000, fileX: 1})
+	encodeMessage(&b, 5, &Function{ID: 1, nameX: 1, systemNameX: 1, filenameX: 1})
+	encodeMessage(&b, 5, &Function{ID: 2, nameX: 1, systemNameX: 1, filenameX: 1})
+	nl := 1 + vChoice("lines", 2)
+	l1 := &Location{ID: 1, mappingIDX: id("map1"), Address: 0x1100}
+	for i := 0; i < nl; i++ {
+		l1.Line = append(l1.Line, Line{functionIDX: id("fn1" + strconv.Itoa(i)), Line: 1})
+	}
+	l2 := &Location{ID: 2, mappingIDX: id("map2"), Address: 0x1200, Line: []Line{{functionIDX: id("fn2"), Line: 2}}}
+	encodeMessage(&b, 4, l1)
+	encodeMessage(&b, 4, l2)
+	encodeMessage(&b, 2, &Sample{locationIDX: []uint64{id("loc0"), id("loc1")}, Value: []int64{7}})
+	p, err := ParseUncompressed(append([]byte{}, b.data...))
+	vReach("C02.dangling:parsed")
+	if err != nil {
+		vObserve(false)
+		return
+	}
+	if p.CheckValid() != nil {
+		vObserve(false)
+		return
+	}
+	vReach("C02.dangling:accepted")
+	vC02Downstream(p)
+	inTable := func(f *Function) bool {
+		for _, g := range p.Function {
+			if g == f {
+				return true
+			}
+		}
+		return false
+	}
+	for _, l := range p.Location {
+		for _, ln := range l.Line {
+			vAssert(ln.Function != nil && inTable(ln.Function), "C02.contract.function: accepted profile has a line whose function is missing from the function table")
+		}
+		if l.Mapping != nil {
+			ok := false
+			for _, m := range p.Mapping {
+				if m == l.Mapping {
+					ok = true
+				}
+			}
+			vAssert(ok, "C02.contract.mapping: accepted profile has a location whose mapping is missing from the mapping table")
+		}
+	}
+	for _, s := range p.Sample {
+		for _, l := range s.Location {
+			ok := false
+			for _, m := range p.Location {
+				if m == l {
+					ok = true
+				}
+			}
+			vAssert(ok, "C02.contract.location: accepted profile has a sample location missing from the location table")
+		}
+	}
+	vObserve(true, len(p.Location))
+}
